@@ -571,7 +571,7 @@ TD_ENTRY = ['/v/d/x', '/r/x', '/v/x']
 TD_NAMES = ['x', 'a b', '%41', 'caf\u00e9']
 
 
-def _tdopt_case(kind, entry, nm):
+def _tdopt_case(kind, entry, nm, relink=False):
     """trash-put --trash-dir T, then trash-list --trash-dir T and trash-restore --trash-dir T: whatever T is (a directory,
     a symbolic link crossing volumes either way), the readers decode the written Path back to the entry's location"""
     with rt.untraced():
@@ -601,10 +601,15 @@ def _tdopt_case(kind, entry, nm):
         world = W.W(mounts=K.MOUNTS, cwd='/h', nodes=nodes)
         e = scen.env()
         label = '%s:entry=%s' % (k, TD_ENTRY[entry])
-        m, res = scen.run_model(world, [C('put', ['--trash-dir', T, '--home-fallback', '--', src], dict(e, TRASH_ENABLE_HOME_FALLBACK='1'), cwd='/h', now='2021-03-04T05:06:07'), {'snap': '/'},
-                                        C('list', ['--trash-dir', T], e, cwd='/h'),
-                                        C('restore', ['--trash-dir', T, '/'], e, stdin=[''], cwd='/h')])
-        rp, after, rl, rr = res
+        m = W.build_model(world)
+        _, res1 = scen.run_model(None, [C('put', ['--trash-dir', T, '--home-fallback', '--', src], dict(e, TRASH_ENABLE_HOME_FALLBACK='1'), cwd='/h', now='2021-03-04T05:06:07'), {'snap': '/'}], model=m)
+        if relink and m.lookup(src, False) is None:
+            # the layout changes AFTER the trashing: a symbolic link to a directory elsewhere now sits at the original
+            # location - the readers still decode the Path to the location, not to where that link leads
+            m.add('/v/elsewhere-now', 'd', 0o755)
+            m.add(src, 'l', 0o777, '/v/elsewhere-now')
+        _, res2 = scen.run_model(None, [C('list', ['--trash-dir', T], e, cwd='/h'), C('restore', ['--trash-dir', T, '/'], e, stdin=[''], cwd='/h')], model=m)
+        rp, after, rl, rr = res1[0], res1[1], res2[0], res2[1]
         for r_ in (rp, rl, rr):
             if r_['exc']:
                 return rt.fail('C03:traceback:%s:%s' % (r_['exc'].split(':')[0], label), r_['exc'])
@@ -660,12 +665,12 @@ def w_manyvols(order: int, nm: int, reader: int) -> str:
     return _manyvols(rt.sel(order, 3), rt.sel(nm, 4), rt.sel(reader, 2))
 
 
-def w_tdopt(kind: int, entry: int, nm: int) -> str:
+def w_tdopt(kind: int, entry: int, nm: int, relink: bool) -> str:
     """
     pre: 0 <= kind < 6 and 0 <= entry < 3 and 0 <= nm < 4
     post: _ == ''
     """
-    return _tdopt_case(rt.sel(kind, 6), rt.sel(entry, 3), rt.sel(nm, 4))
+    return _tdopt_case(rt.sel(kind, 6), rt.sel(entry, 3), rt.sel(nm, 4), rt.selb(relink))
 
 
 def w_bytes(i: int, layout: int, depth: int) -> str:
@@ -713,6 +718,6 @@ def obligations(tier):
         CH('W_explicit_trash_dir_write_then_read', MOD, 'w_tdopt', timeout=600, engine='W', regime='selector',
            encodes=K.PUT_FUNCS + K.LIST_FUNCS + K.RESTORE_FUNCS, stubs=K.STUBS,
            bounds='trash-put --trash-dir T then trash-list / trash-restore --trash-dir T: 6 spellings of T (directory on the same / another volume, symbolic link crossing volumes either way, '
-                  'link on one volume, relative spelling) x 3 entry locations x 4 names'),
+                  'link on one volume, relative spelling) x 3 entry locations x 4 names x the location free / occupied by a symbolic link after the trashing'),
     ]
     return obs
